@@ -3,7 +3,8 @@
 Require Extraction.
 Require Import ExtrOcamlBasic.
 From Coq Require Import Strings.Byte.
-From JS Require Import Common.Wire Omap.OmapRun.
+From JS Require Import Common.Wire Omap.OmapRun Num.NumModel.
 Extraction Language OCaml.
 Extraction "model.ml" wire_byte_of_N wire_byte_to_N
-  omap_model_line omap_spec_line.
+  omap_model_line omap_spec_line
+  num_model_line.
